@@ -120,6 +120,19 @@ pub fn extra_pool() -> Vec<File> {
             out.push(File { lets: vec![], rules: vec![rule("r0", vec![vec![c.clone(), lp[0].clone()]]), rule("r1", vec![vec![lp[1].clone()], vec![c]])], default: vec![] });
         }
     }
+    // an `or` line whose alternative is a block holding its own `or` line (nested disjunctions), a when block, a call;
+    // two-level parameterised calls, each with its own message
+    let inner_or = Clause::Block { some: false, q: vec![key("a"), Part::All], not_empty: false, lets: vec![], body: vec![vec![bin(vec![key("b")], BinOp::Eq, false, i(8)), bin(vec![key("b")], BinOp::Eq, false, i(9))], vec![un(vec![key("zz")], UnOp::Exists, false)]] };
+    out.push(file1(rule("r0", vec![vec![bin(a(), BinOp::Eq, false, i(9)), inner_or.clone()]])));
+    out.push(file1(rule("r0", vec![vec![inner_or.clone(), bin(a(), BinOp::Eq, false, i(9))], vec![lp[0].clone()]])));
+    out.push(file1(rule("r0", vec![vec![bin(a(), BinOp::Eq, false, i(9)), Clause::When { cond: vec![vec![un(a(), UnOp::Exists, false)]], lets: vec![], body: vec![vec![bin(a(), BinOp::Eq, false, i(7)), bin(a(), BinOp::Eq, false, i(8))]] }]])));
+    {
+        let inner = Rule { name: "pin".into(), params: Some(vec!["p".into()]), when: None, lets: vec![], body: vec![vec![Clause::Binary { not: false, some: false, q: a(), op: BinOp::Eq, opneg: false, rhs: Arg::Q(false, vec![Part::Var("p".into())]), msg: None }]] };
+        let outer = Rule { name: "pout".into(), params: Some(vec!["q".into()]), when: None, lets: vec![], body: vec![vec![Clause::Call { not: false, name: "pin".into(), args: vec![Arg::Q(false, vec![Part::Var("q".into())])], msg: None }], vec![un(vec![Part::Var("q".into())], UnOp::Exists, false)]] };
+        for arg in [Arg::Lit(i(2)), Arg::Q(false, vec![key("b")])] {
+            out.push(File { lets: vec![], rules: vec![inner.clone(), outer.clone(), rule("r0", vec![vec![Clause::Call { not: false, name: "pout".into(), args: vec![arg.clone()], msg: None }]]), rule("r1", vec![vec![Clause::Call { not: false, name: "pin".into(), args: vec![arg.clone()], msg: None }], vec![lp[1].clone()]])], default: vec![] });
+        }
+    }
     // query block with `some`, nested when
     out.push(file1(rule("r0", vec![vec![Clause::Block { some: true, q: vec![key("a"), Part::All], not_empty: false, lets: vec![], body: vec![vec![un(vec![key("b")], UnOp::Exists, false)], vec![bin(vec![key("a")], BinOp::Eq, false, i(1)), bin(vec![key("b")], BinOp::Eq, false, i(1))]] }]])));
     out
@@ -184,6 +197,64 @@ fn check_run_layout(files: &[File], doc_json: &str, acc: &mut Acc, class: &str, 
             }
             Err(Obs::Empty) => {}
             Err(_) => any_err = true,
+        }
+    }
+    // a called parameterised rule is recorded with the message of the call that reached it, no other call's
+    {
+        fn calls(c: &Cnf, out: &mut Vec<(String, Option<String>)>) {
+            for line in c {
+                for alt in line {
+                    match alt {
+                        Clause::Call { name, msg, .. } => out.push((name.clone(), msg.clone())),
+                        Clause::Block { body, .. } => calls(body, out),
+                        Clause::When { cond, body, .. } => {
+                            calls(cond, out);
+                            calls(body, out);
+                        }
+                        Clause::TypeBlock { cond, body, .. } => {
+                            if let Some(c2) = cond {
+                                calls(c2, out);
+                            }
+                            calls(body, out);
+                        }
+                        _ => {}
+                    }
+                }
+            }
+        }
+        fn nested_rule_checks(n: &serde_json::Value, depth: usize, out: &mut Vec<(String, Option<String>)>) {
+            if depth > 1 {
+                if let Some(rc) = n.get("container").and_then(|c| c.get("RuleCheck")) {
+                    out.push((bare(rc.get("name").and_then(|x| x.as_str()).unwrap_or("?")), rc.get("message").and_then(|m| m.as_str()).map(|x| x.to_string())));
+                }
+            }
+            if let Some(ch) = n.get("children").and_then(|c| c.as_array()) {
+                for c in ch {
+                    nested_rule_checks(c, depth + 1, out);
+                }
+            }
+        }
+        for (f, t) in files.iter().zip(texts.iter()) {
+            let mut declared = vec![];
+            for r in &f.rules {
+                if let Some(w) = &r.when {
+                    calls(w, &mut declared);
+                }
+                calls(&r.body, &mut declared);
+            }
+            calls(&f.default, &mut declared);
+            if declared.is_empty() {
+                continue;
+            }
+            if let Ok(rec) = lib_record(t, doc_json) {
+                let mut seen = vec![];
+                nested_rule_checks(&rec, 0, &mut seen);
+                for (name, msg) in seen {
+                    if f.rules.iter().any(|r| r.name == name && r.params.is_some()) && !declared.iter().any(|(n, m)| *n == name && *m == msg) {
+                        acc.violate(&format!("call-message:{}", class), format!("the recorded evaluation of parameterised rule {} carries message {:?}, but the calls of it are {:?} | rules `{}` data {}", name, msg, declared.iter().filter(|(n, _)| *n == name).collect::<Vec<_>>(), t.trim(), doc_json), replay("the message of the call", format!("{:?}", msg)));
+                    }
+                }
+            }
         }
     }
     if any_err {
